@@ -586,7 +586,7 @@ package main
 //@   panics never
 
 //@ func parseBinAfter
-//@   props C08
+//@   props C08 C06
 //@   modifies glob:wg
 //@   requires live: live(ps)
 //@   ensures live: live(result.E0) && samebuf(result.E0, ps)
@@ -597,6 +597,7 @@ package main
 //@   requires min-small: minPrec <= 100
 //@   panics may
 //@   ensures rank: rp >= minPrec || rp >= rpc
+//@   ensures C08 C06 no-operator-nothing-consumed: !isbinop(skipeol(ps).tkz.current.ttype) || binfo(skipeol(ps).tkz.current.ttype).Precedence < minPrec ==> result.E0 == ps && result.E1 == cur
 //@   ensures stop: stop(result.E0, minPrec)
 //@   ensures grouped: old(glob(wg)) ==> glob(wg)
 //@   at before call frt.NewTuple2#0: rp = rpc
@@ -608,11 +609,14 @@ package main
 //@   at after call parseBinAfter#0: rp = c_rp
 
 //@ func parseExprWithPrec
-//@   props C08
+//@   props C08 C06
 //@   modifies glob:wg
 //@   requires live: live(ps)
 //@   ensures live: live(result.E0) && samebuf(result.E0, ps)
 //@   ghost rp int
+//@   ghost T2 ParseState         -- the state right after the leading term
+//@   ensures C08 C06 line-breaks-after-an-expression-are-not-consumed: !isbinop(skipeol(T2).tkz.current.ttype) ==> result.E0 == T2
+//@   at after call frt.Destr2#0: T2 = ret
 //@   requires min-small: minPrec <= 100
 //@   panics may
 //@   ensures rank: rp >= minPrec
@@ -623,7 +627,7 @@ package main
 //@   at before call frt.NewTuple2#0: rp = 100
 
 //@ func parseExpr
-//@   props C08
+//@   props C08 C06
 //@   modifies glob:wg
 //@   requires live: live(ps)
 //@   ensures live: live(result.E0) && samebuf(result.E0, ps)
@@ -1835,11 +1839,34 @@ package main
 //@   modifies maps
 //@   panics may
 //@   ensures live: live(ps) ==> live(result.E0) && samebuf(result.E0, ps)
-//@ func parseVarRef
+//@ func psIsNeighborLT
+//@   props C08
+//@   requires live: live(ps)
+//@   panics never
+//@   returns ps.tkz.current.begin + ps.tkz.current.len < len(ps.tkz.buf) && ps.tkz.buf[ps.tkz.current.begin + ps.tkz.current.len] == '<'
+
+//@ func scLookupVarFac
+//@   trusted
+//@   panics may
+//@ func refVar
+//@   trusted
+//@   modifies maps
+//@   panics may
+//@ func parseFAAfterDot
 //@   trusted
 //@   modifies maps
 //@   panics may
 //@   ensures live: live(ps) ==> live(result.E0) && samebuf(result.E0, ps)
+
+// a reference: `<` opens a type-argument list only when it follows the identifier without a blank; a spaced
+// `<` is left to the operator parser (the reference ends right after the identifier)
+//@ func parseVarRef
+//@   props C08
+//@   modifies maps
+//@   requires live: live(ps)
+//@   panics may
+//@   ensures live: live(result.E0) && samebuf(result.E0, ps)
+//@   ensures spaced-lt-is-left-to-the-operator-parser: !(ps.tkz.current.begin + ps.tkz.current.len < len(ps.tkz.buf) && ps.tkz.buf[ps.tkz.current.begin + ps.tkz.current.len] == '<') && adv(ps).tkz.current.ttype != New_TokenType_DOT ==> result.E0 == adv(ps)
 
 //@ func parseAtom
 //@   props C08
